@@ -202,6 +202,11 @@ func c10Fixed(tier string) []*Case {
 			c2.Conns = []ConnCase{{Steps: []Step{{Msgs: []pgwire.FMsg{{K: "startup", KV: [][2]string{{"user", "u"}}}}}, {Msgs: []pgwire.FMsg{{K: "p", S1: pw}}}, {Msgs: []pgwire.FMsg{{K: "Q", S1: probeKey}}}}}}
 			out = append(out, c2)
 		}
+		for _, declared := range []uint32{uint32(L) + 5, 1 << 20, 1 << 28, 0x7fffffff, 0xfffffff0} {
+			for _, sent := range []int{8, 9, 40} {
+				out = append(out, c10Silent(L, "startup", declared, sent), c10Silent(L, "password", declared, sent-3))
+			}
+		}
 		for dl := uint32(0); dl < 4; dl++ {
 			for _, t := range []byte("QPBES") {
 				c := &Case{Variant: "subminimum", Server: ServerCfg{Limit: L}, Programs: map[string]*Program{probeKey: probeProgram()}}
@@ -216,7 +221,30 @@ func c10Fixed(tier string) []*Case {
 	return out
 }
 
+// c10Silent: an unauthenticated peer declares an oversized startup packet or
+// password message, sends only its first bytes and then stays silent (the
+// connection stays open on its side).
+func c10Silent(L int, phase string, declared uint32, sent int) *Case {
+	c := &Case{Variant: "silent-oversized-" + phase, Server: ServerCfg{Limit: L}, Expect: map[string]any{"declared": declared}}
+	pad := strings.Repeat("v", 64)
+	switch phase {
+	case "startup":
+		su := pgwire.FMsg{K: "startup", KV: [][2]string{{"user", "u"}, {"p", pad}}, DeclLen: u32p(declared), Cut: intp(sent)}
+		c.Conns = []ConnCase{{NoEOF: true, Steps: []Step{{Msgs: []pgwire.FMsg{su}}}}}
+	case "password":
+		c.Server.Auth = "cleartext"
+		c.Server.DefaultAuth = "accept"
+		pw := pgwire.FMsg{K: "p", S1: pad, DeclLen: u32p(declared), Cut: intp(sent)}
+		c.Conns = []ConnCase{{NoEOF: true, Steps: []Step{{Msgs: []pgwire.FMsg{{K: "startup", KV: [][2]string{{"user", "u"}}}}}, {Msgs: []pgwire.FMsg{pw}}}}}
+	}
+	return c
+}
+
 func genC10(r *Rand, tier string) *Case {
+	if r.Chance(1, 40) {
+		L := r.PickInt(16, 64, 1000, 4096, 65536)
+		return c10Silent(L, r.Pick("startup", "password"), uint32(r.PickInt(L+5, 2*L, 1<<20, 0x7fffffff, 0xffffffff)), r.PickInt(5, 6, 8, 12, 60))
+	}
 	L := r.PickInt(5, 16, 64, 100, 1000, 4095, 4096, 4097, 65536)
 	if r.Chance(1, 60) {
 		L = r.PickInt(0, -1)
@@ -324,6 +352,16 @@ func checkC10(x *Exec, c *Case) ([]Violation, bool) {
 			}
 		}
 		switch c.Variant {
+		case "silent-oversized-startup", "silent-oversized-password":
+			// the peer declared an oversized startup packet / password message and
+			// then stays silent: the connection is ended, nobody waits for the body
+			nt = true
+			if cs.Started && cs.ClosedBefore == 0 {
+				add("oversized-before-session-not-ended", "oversized "+c.Variant, fmt.Sprintf("conn %d: the peer declared a %s of %s bytes with limit %d and went silent; the server keeps waiting for the body instead of ending the connection (output %q)", i, strings.TrimPrefix(c.Variant, "silent-oversized-"), fmt.Sprint(c.Expect["declared"]), eff, kinds))
+			}
+			if countKind(cs, "parse")+countKind(cs, "stmt")+countKind(cs, "validator") > 0 {
+				add("callback-for-oversized-startup", "oversized callback "+c.Variant, fmt.Sprintf("conn %d: a callback ran", i))
+			}
 		case "subminimum", "subminimum-startup":
 			nt = true
 			// an ErrorResponse or connection end, no callback, nothing else
